@@ -45,7 +45,9 @@ CFG = {
         dict(test="^TestC01Step$", checks=(8000, 40000)),
         dict(test="^TestC01Soup$", checks=(60000, 2000000)),
         dict(test="^TestC01Exerciser$", checks=(10, 150))]),
-    "C02": dict(pkg="core", test="^TestC02$", shards=(1, 1), checks=(1, 1)),
+    "C02": dict(pkg="core", shards=(1, 1), tests=[
+        dict(test="^TestC02$", checks=(1, 1)),
+        dict(test="^TestC02Machines$", checks=(1, 1))]),
     "C03": dict(pkg="core", test="^TestC03$", shards=(1, 1), checks=(1, 1)),
     "C04": dict(pkg="core", shards=(8, 16), tests=[
         dict(test="^TestC04$", checks=(600, 12000)),
@@ -63,7 +65,8 @@ CFG = {
         dict(test="^TestC10Concurrent$", checks=(60, 3000)),
         dict(test="^TestC10Boundary$", checks=(60, 3000)),
         dict(test="^TestC10Constructors$", checks=(1, 1)),
-        dict(test="^TestC10MemoryKinds$", checks=(60, 3000))]),
+        dict(test="^TestC10MemoryKinds$", checks=(60, 3000)),
+        dict(test="^TestC10RunSnapshot$", checks=(200, 8000))]),
     "C11": dict(pkg="core", test="^TestC11$", shards=(8, 16), checks=(8000, 60000)),
     "C12": dict(pkg="total", test="^TestC12$", shards=(8, 16), checks=(45000, 1500000),
                 fuzz=dict(pkg="total", target="^FuzzTotal$", seconds=(0, 300))),
